@@ -201,6 +201,9 @@ pub struct GenCfg {
     /// imports may be spelled legally but not canonically: a needless percent escape, an
     /// empty path segment, a fragment or a query (file-system front ends only)
     pub odd_spellings: bool,
+    /// two imports of one module may share a qualifier, or both be unqualified, although the
+    /// imported modules declare a common name (accepted: the later import wins)
+    pub clashing_imports: bool,
 }
 
 impl Default for GenCfg {
@@ -214,6 +217,7 @@ impl Default for GenCfg {
             shadow_bias: 4,
             res_range: (1, 3),
             odd_spellings: false,
+            clashing_imports: false,
         }
     }
 }
@@ -258,9 +262,8 @@ impl Cx<'_> {
                 }
             }
         }
-        // imports: the last matching import wins in the compiler; the generator keeps
-        // (name, qualifier) unique so there is exactly one candidate.
-        for imp in self.mods[self.m].imports.iter() {
+        // imports: the last matching import (in source order) wins, as in the compiler
+        for imp in self.mods[self.m].imports.iter().rev() {
             let q = imp.qualifier.as_ref().map(|(q, _)| q.as_str());
             if q == qualifier {
                 for d in self.mods[imp.module].decls.iter() {
@@ -933,6 +936,19 @@ fn tags_ann(rng: &mut Rng) -> String {
     format!("tags: [{}]", v.join(", "))
 }
 
+/// What `qualifier.name` (or plain `name`) names through the imports of module `m`:
+/// the last import in source order that matches.
+fn import_resolves(mods: &[ModSt], m: usize, qualifier: Option<&str>, name: &str) -> Option<usize> {
+    for imp in mods[m].imports.iter().rev() {
+        if imp.qualifier.as_ref().map(|q| q.0.as_str()) == qualifier {
+            if let Some(d) = mods[imp.module].decls.iter().find(|d| d.name == name) {
+                return Some(d.binder);
+            }
+        }
+    }
+    None
+}
+
 fn decl_kind(rng: &mut Rng) -> Kind {
     match rng.below(20) {
         0..=2 => Kind::S(SK::Prim),
@@ -1024,10 +1040,18 @@ pub fn generate(rng: &mut Rng, cfg: &GenCfg) -> ProgramAst {
         for j in targets {
             let their: BTreeSet<String> = mods[j].decls.iter().map(|d| d.name.clone()).collect();
             let clash = their.iter().any(|n| flat_names.contains(n));
-            let qualified = clash || rng.chance(2, 3);
+            let qualified = (clash && !cfg.clashing_imports) || rng.chance(2, 3);
+            if clash && !qualified {
+                features.insert("unqualified_imports_share_a_name");
+            }
             let qualifier = if qualified {
                 let mut q = rng.pick(QUALS).to_string();
-                while quals_used.contains(&q) {
+                let reuse = cfg.clashing_imports && !quals_used.is_empty() && rng.chance(1, 4);
+                if reuse {
+                    q = quals_used.iter().next().unwrap().clone();
+                    features.insert("qualifier_used_by_two_imports");
+                }
+                while !reuse && quals_used.contains(&q) {
                     q = format!("{}{}", q, rng.below(9));
                 }
                 quals_used.insert(q.clone());
@@ -1093,7 +1117,9 @@ pub fn generate(rng: &mut Rng, cfg: &GenCfg) -> ProgramAst {
                     .collect();
                 for imp in imports.iter() {
                     for d in mods[imp.module].decls.iter().filter(|d| d.params.len() >= 2) {
-                        cands.push(Delegate { qualifier: imp.qualifier.clone(), name: d.name.clone(), binder: d.binder, params: d.params.clone() });
+                        if import_resolves(&mods, m, imp.qualifier.as_ref().map(|q| q.0.as_str()), &d.name) == Some(d.binder) {
+                            cands.push(Delegate { qualifier: imp.qualifier.clone(), name: d.name.clone(), binder: d.binder, params: d.params.clone() });
+                        }
                     }
                 }
                 if !cands.is_empty() {
@@ -1418,9 +1444,12 @@ pub fn generate(rng: &mut Rng, cfg: &GenCfg) -> ProgramAst {
         }
         if rng.chance(1, 3) && !all.is_empty() {
             // `use` is allowed anywhere at top level: scatter the imports among the statements
-            for imp in all.drain(..).collect::<Vec<_>>() {
-                let at = rng.below(stmts.len() + 1);
-                stmts.insert(at, imp);
+            // (their relative order is kept: which of two clashing imports wins depends on it)
+            let imps: Vec<Stmt> = all.drain(..).collect();
+            let mut at: Vec<usize> = (0..imps.len()).map(|_| rng.below(stmts.len() + 1)).collect();
+            at.sort();
+            for (k, imp) in imps.into_iter().enumerate() {
+                stmts.insert(at[k] + k, imp);
             }
             features.insert("late_import");
         }
@@ -1437,6 +1466,7 @@ pub fn generate(rng: &mut Rng, cfg: &GenCfg) -> ProgramAst {
             let Some(x) = mods[tmod].decls.iter().find(|d| d.params.is_empty()).cloned() else { continue };
             let importers: Vec<(usize, (String, usize))> = (0..tmod)
                 .filter_map(|i| mods[i].imports.iter().find(|im| im.module == tmod).and_then(|im| im.qualifier.clone()).map(|q| (i, q)))
+                .filter(|(i, q)| import_resolves(&mods, *i, Some(&q.0), &x.name) == Some(x.binder))
                 .collect();
             let mut done = false;
             for a in 0..importers.len() {
@@ -1704,7 +1734,16 @@ pub struct Layout {
 }
 
 const TRIVIA_ASCII: &[&str] = &[" ", " ", " ", "\n", "\n  ", "  ", " /* note */ ", "\n// line\n", "\t"];
-const TRIVIA_MB: &[&str] = &[" /* é */ ", " /* 你好 */ ", " /* 😉😉 */ ", "\n// ünïcode 😉 说明\n", " /* a😉b */ "];
+const TRIVIA_MB: &[&str] = &[
+    " /* é */ ",
+    " /* 你好 */ ",
+    " /* 😉😉 */ ",
+    "\n// ünïcode 😉 说明\n",
+    " /* a😉b */ ",
+    // characters that some tools take for line ends but the protocol does not: U+2028, U+2029, U+0085
+    " /* sep\u{2028}arator */ ",
+    " /* par\u{2029}agraph \u{85} nel */ ",
+];
 
 pub fn render(ast: &ProgramAst, layout: &Layout) -> Vec<RMod> {
     let mut out = Vec::new();
